@@ -395,6 +395,68 @@ def r17_4(ctx, prog, crate):
         ctx.check(ok, "R17.4", ["bench", "zst-closure-check"], "mem::zeroed::<B>() is not preceded by the size_of::<B>() == 0 assertion", bn.where(0))
 
 
+MACRO_SIDE = {"args-runner", "shared-args", "one-__DIVAN_ARGS", "no-__DIVAN_ARGS", "args-expression", "own-type-in-own-position",
+              "own-const-in-own-position", "instantiation-arity", "each-combination-once", "covers-the-whole-product",
+              "const_value-indexes-__DIVAN_CONSTS", "ty-names-a-listed-type", "runner-kind", "runs-own-function", "consts-as-written", "product-size"}
+
+
+class _MacroSide:
+    """View of the C12 expansion rules restricted to what C17 states (one shared argument cell per function, own type /
+    const / argument expression per instantiation); obligations are recorded under R17.5."""
+
+    def __init__(self, ctx):
+        self._c = ctx
+        self.tier = ctx.tier
+        self.extra = {}
+
+    def _mine(self, key):
+        return any(str(k) in MACRO_SIDE for k in key)
+
+    def check(self, cond, rule, key, msg, where=None, detail=None):
+        if self._mine(key):
+            return self._c.check(cond, "R17.5", key, msg, where, detail)
+        return bool(cond)
+
+    def fail(self, rule, key, msg, where=None):
+        if self._mine(key):
+            self._c.fail("R17.5", key, msg, where)
+
+    def ok(self, rule, instance, detail=None):
+        pass
+
+    def anchor(self, rule, what, found, floor=1, where=None):
+        n = found if isinstance(found, int) else len(found)
+        return n >= floor
+
+    def note(self, s):
+        pass
+
+    def saw(self, body):
+        pass
+
+    def __setattr__(self, k, v):
+        if k in ("_c", "tier", "extra"):
+            object.__setattr__(self, k, v)
+        else:
+            setattr(self._c, k, v)
+
+
+def run_extra(ctx):
+    """R17.5 macro side: analysed on the expansions of the corpus and the repository's own attributed programs (engine E3)."""
+    from . import C12
+    C12.ensure_tool()
+    ctx.cfg = "expand"
+    px = _MacroSide(ctx)
+    n = 0
+    for t in C12.targets(ctx.tier):
+        exp = C12.expand_target(t)
+        items = C12.tool("items", t["src"])["items"]
+        regs = C12.tool("regs", exp)
+        n += len([i for i in items if C12.opt(i, "args") is not None or C12.opt(i, "types") is not None or C12.opt(i, "consts") is not None])
+        C12.check_program(px, t, items, regs)
+    ctx.anchor("R17.5", "attributed items with args/types/consts analysed", n, 20)
+
+
 def run(ctx, prog, crate):
     r17_1(ctx, prog, crate)
     r17_2(ctx, prog, crate)
